@@ -265,6 +265,8 @@ def pv_of_default(py: str, jsterm: str, coqtype: str) -> str:
     """the default VALUE as a Core.pv term (the model renders it): leaves carry their canonical text, enum members their name"""
     if jsterm == "JNull":
         return "Core.VNone"
+    if coqtype.startswith("TAnn ["):
+        coqtype = coqtype[coqtype.index("] (") + 3:-1]
     if coqtype.startswith("TLeaf"):
         return 'Core.VLeaf "leaf" ' + jsterm[len("JStr "):]
     if coqtype.startswith("TEnum false") and py != "None":
@@ -318,6 +320,7 @@ M_PRELUDE = [
     "import collections, datetime, decimal, enum, fractions, ipaddress, pathlib, uuid, zoneinfo",
     "from typing_extensions import TypedDict, Required, NotRequired, Annotated",
     "from mashumaro.types import Alias",
+    "from mashumaro.jsonschema.annotations import Maximum, Minimum, ExclusiveMaximum, ExclusiveMinimum, MultipleOf, MinLength, MaxLength, Pattern, MinItems, MaxItems, UniqueItems, MinProperties, MaxProperties",
     "from mashumaro import pass_through",
     "from mashumaro.types import SerializationStrategy",
     "from mashumaro.dialect import Dialect",
@@ -385,7 +388,7 @@ def m_type(r, depth, avail, allow_any=True, asd=False) -> MT:
             if allow_any or t.py != "Any":
                 return t
     k = r.choice(["List", "Set", "Dict", "Tuple", "Union", "Optional", "List", "Optional", "Tuple0", "Map", "Map", "Counter", "ChainMap", "TupleVar",
-                  "Seq", "FrozenSet"])
+                  "Seq", "FrozenSet", "Ann", "Ann"])
     if k in ("Map", "Counter", "ChainMap"):
         kt = m_scalar(r)
         while not kt.hashable or kt.py == "Any":
@@ -399,6 +402,25 @@ def m_type(r, depth, avail, allow_any=True, asd=False) -> MT:
         if k == "ChainMap":
             return MT(f"ChainMap[{kt.py}, {a.py}]", f"TList (TMap ({kt.coq}) ({a.coq}))", None, False, a.classes, dom=kt.dom and a.dom)
         return MT(f"{name}[{kt.py}, {a.py}]", f"TMap ({kt.coq}) ({a.coq})", None, False, a.classes, dom=kt.dom and a.dom)
+    if k == "Ann":
+        # Annotated constraints: any mix; those that do not fit the kind of the base type are ignored by the implementation
+        base = r.choice([m_scalar(r), m_scalar(r), m_type(r, depth - 1, avail, asd=asd), MT("pathlib.PurePosixPath", 'TLeaf "string" (Some "path") None', None, True)])
+        if base.py.startswith(("Annotated", "Final", "Optional", "Union")) or base.py in ("Any",):
+            base = m_scalar(r)
+            while base.py == "Any":
+                base = m_scalar(r)
+        pool = [("Maximum({z})", "ANum AMaximum {z}"), ("Minimum({z})", "ANum AMinimum {z}"), ("ExclusiveMaximum({z})", "ANum AExMax {z}"),
+                ("ExclusiveMinimum({z})", "ANum AExMin {z}"), ("MultipleOf({p})", "ANum AMultipleOf {p}"), ("MinLength({n})", "ANum AMinLength {n}"),
+                ("MaxLength({n})", "ANum AMaxLength {n}"), ("MinItems({n})", "ANum AMinItems {n}"), ("MaxItems({n})", "ANum AMaxItems {n}"),
+                ("MinProperties({n})", "ANum AMinProps {n}"), ("MaxProperties({n})", "ANum AMaxProps {n}"),
+                ("Pattern('^a*$')", 'APattern "^a*$"'), ("UniqueItems(True)", "AUnique true"), ("UniqueItems(False)", "AUnique false")]
+        chosen = [r.choice(pool) for _ in range(r.randrange(1, 5))]
+        py, cq = [], []
+        for a, c in chosen:
+            z = r.choice([0, 1, -3, 10, 2**40]); n = r.choice([0, 1, 5]); pp = r.choice([1, 2, 10])
+            py.append(a.format(z=z, n=n, p=pp))
+            cq.append(c.format(z=f"({z})", n=str(n), p=str(pp)))
+        return MT(f"Annotated[{base.py}, {', '.join(py)}]", f"TAnn [{'; '.join(cq)}] ({base.coq})", base.default, base.hashable, base.classes, dom=base.dom)
     if k in ("TupleVar", "Seq"):
         a = m_type(r, depth - 1, avail, asd=asd)
         py = f"Tuple[{a.py}, ...]" if k == "TupleVar" else r.choice(["Sequence", "Deque", "MutableSequence"]) + f"[{a.py}]"
